@@ -84,11 +84,23 @@ func checkC01(c *km.Ctx) {
 			return f.Op == token.EQL && km.IsNilConst(f.Y) && km.Unwrap(f.X) == ssa.Value(decision)
 		}
 	}
-	prTarget := km.Prim{Name: "target==authUser", Direct: func(f km.Fact) bool {
+	prTarget := km.Prim{Name: "target==authUser", Rel: func(f km.Fact, resolve func(ssa.Value) ssa.Value) bool {
 		if f.Op != token.EQL {
 			return false
 		}
-		return (s.Is(f.X, km.RoleAuthUser) && isURLTarget(f.Y, pattern)) || (s.Is(f.Y, km.RoleAuthUser) && isURLTarget(f.X, pattern))
+		isUser := func(v ssa.Value) bool {
+			if s.Is(v, km.RoleAuthUser) {
+				return true
+			}
+			// inside a helper: the Username field of the parameter bound to the authenticated session
+			if base, fld, ok := km.FieldOfLoad(km.Unwrap(v)); ok && fld == "Username" {
+				if rb := resolve(base); rb != km.Unwrap(base) && s.Is(rb, km.RoleAuthInfo) {
+					return true
+				}
+			}
+			return false
+		}
+		return (isUser(f.X) && isURLTargetR(f.Y, pattern, resolve)) || (isUser(f.Y) && isURLTargetR(f.X, pattern, resolve))
 	}}
 
 	stop := map[*ssa.Function]bool{checkAuth: true}
@@ -149,6 +161,24 @@ func isURLTarget(v ssa.Value, pattern string) bool {
 		return false
 	}
 	_, path, ok := km.FieldPath(sl.X)
+	return ok && path == "URL.Path"
+}
+
+// isURLTargetR: isURLTarget for a value of a helper's frame (the sliced string may be a parameter bound to the path).
+func isURLTargetR(v ssa.Value, pattern string, resolve func(ssa.Value) ssa.Value) bool {
+	v = resolve(v)
+	if isURLTarget(v, pattern) {
+		return true
+	}
+	sl, ok := km.Unwrap(v).(*ssa.Slice)
+	if !ok || sl.Low == nil || sl.High != nil {
+		return false
+	}
+	lo, ok := km.ConstInt(sl.Low)
+	if !ok || int(lo) != len(pattern) {
+		return false
+	}
+	_, path, ok := km.FieldPath(resolve(sl.X))
 	return ok && path == "URL.Path"
 }
 
